@@ -264,6 +264,19 @@ def r3_literals(run, F):
     for variant, want in (("Binary", ["{} {} {}"]), ("Unary", ["{}{}"]), ("Parenthesized", ["({})"]), ("TypeCast", ["{} as {}"]), ("LengthOfArray", ["|{}|"]), ("SizeOf", ["|:{}|"])):
         got = fmt_of(variant)
         run.ob("R3-LITERAL-SPELLING", "%s template" % variant, got == want, F.where(e), "%s prints as %s, one template on every path: found %s" % (variant, want, got))
+        # .. and every text the arm hands back is the output of that template (not a child's text passed through because it "already
+        # has parentheses": `((a) + f(b)) * 3` starts with `(` and ends with `)` and still needs its own pair)
+        from rules import visit as _visit, origins as _origins
+        arm_ = hirq.arm_for(m, "Expression::" + variant)
+        passed = []
+        for l_ in (_visit.result_leaves(arm_[0]["body"]) if arm_ else []):
+            x_ = hirq.unwrap_trivial(l_)
+            if x_.get("k") == "Call" and (hirq.callee(x_) or "").endswith("::Ok") and x_.get("a"):
+                pr_ = _origins.producers(e["hir"], x_["a"][0], e.get("params", ()))
+                if not pr_ or not all(k_[0] == "call" and str(k_[1]).endswith(("hint::must_use", "fmt::format")) for k_ in pr_):
+                    passed.append(l_)
+        run.ob("R3-LITERAL-SPELLING", "%s text comes from its template" % variant, bool(arm_) and not passed, F.where(e, passed[0]) if passed else F.where(e),
+               "every text the %s arm returns is produced by its format template (%d result(s) are not)" % (variant, len(passed)))
     sarm = hirq.arm_for(m, "Expression::StringLiteral")
     cs = [hirq.callee(c) or "" for c in hirq.calls(sarm[0]["body"])] if sarm else []
     A = lexq.LexTables(F, "alpha")
